@@ -207,6 +207,7 @@ type Summary struct {
 	NextSeed     int64          `json:"next_seed"`
 	FirstSeed    int64          `json:"first_seed"`
 	LastSeed     int64          `json:"last_seed"`
+	Restart      bool           `json:"restart,omitempty"` // stopped early to be continued by a fresh process
 	Hashes       string         `json:"hashes,omitempty"` // hash-of-hashes for determinism mode
 	PerSeedHash  map[string]string `json:"per_seed_hash,omitempty"`
 }
@@ -357,6 +358,16 @@ func explore(t *testing.T, e Engine, spec Spec, enc *json.Encoder, w *bufio.Writ
 		if sum.Runs%2000 == 0 {
 			runtime.GC()
 		}
+		if sum.Runs%256 == 0 {
+			// goroutines of aborted runs that are blocked inside the runtime can never be reclaimed
+			// (their bubble is dead): hand over to a fresh process before memory gets out of hand
+			var ms runtime.MemStats
+			runtime.ReadMemStats(&ms)
+			if ms.Sys > memLimit() {
+				sum.Restart = true
+				break
+			}
+		}
 	}
 	sum.NextSeed = seed
 	sum.WallSec = time.Since(start).Seconds()
@@ -373,6 +384,16 @@ func explore(t *testing.T, e Engine, spec Spec, enc *json.Encoder, w *bufio.Writ
 	}
 	enc.Encode(&sum)
 	w.Flush()
+}
+
+func memLimit() uint64 {
+	if v := os.Getenv("VERIF_WORKER_MEM_MB"); v != "" {
+		var n uint64
+		if _, err := fmt.Sscan(v, &n); err == nil && n > 0 {
+			return n << 20
+		}
+	}
+	return 1200 << 20
 }
 
 // hasClass reports whether res shows a violation of (prop, class).
